@@ -46,7 +46,7 @@ def run_tlc(module, cfgfile, wd, env=None, workers=1, timeout=3600, extra=(), he
     if env:
         e.update(env)
     cmd = [
-        "java", "-Xmx" + heap] + (["-XX:+UseSerialGC", "-XX:TieredStopAtLevel=1"] if quickjit
+        "java", "-Xmx" + heap, "-Xss256m"] + (["-XX:+UseSerialGC", "-XX:TieredStopAtLevel=1"] if quickjit
                                     else ["-XX:+UseParallelGC"]) + ["-cp", _classpath(), "tlc2.TLC",
         "-workers", str(workers), "-metadir", meta, "-noGenerateSpecTE",
         "-config", os.path.join(SPEC, cfgfile),
